@@ -158,6 +158,8 @@ def run(ctx):
     wtests.run(ctx)
     install(ctx)
     rng = ctx.rng
+    from .. import longrun
+    _early = longrun.Early()
     over_limit(ctx, rng, ctx.budget(8_000, 80_000))
     ctx.need("peak above the 2^31-1 limit (the move the helper must expose)", 3_000)
     edge_of_window(ctx, rng, ctx.budget(6_000, 60_000))
@@ -183,11 +185,17 @@ def run(ctx):
         ctx.case(classes, (time, rate, accel, jerk), nontrivial=time >= 2)
         ctx.sample({"T": time, "rate": rate, "accel": accel, "jerk": jerk}, tag=classes[1] if len(classes) > 1 else classes[0])
         one_case(ctx, time, rate, accel, jerk)
+        _early.remember((time, rate, accel, jerk))
         if time <= 3000 and done % 8 == 0:
             ctx.count("oracle self-check (all ticks brute force)")
             if S.tick_t3(time, rate, accel, jerk, 0)[3] != S.t3_peak(rate, accel, jerk, time):
                 ctx.oracle_fault("peak from vertex neighbours != brute force", [time, rate, accel, jerk])
         done += 1
+    from plotink import ebb_calc as _ec2
+    longrun.churn_then_replay(
+        ctx, _ec2, "max_rate_t3", lambda k: (2 + k % 40, 100000 + k, k % 201 - 100, k % 7 - 3), _early,
+        lambda it: one_case(ctx, *it))
+    ctx.need("history: asked again after 100000+ other distinct requests", 30)
     for cls in NEEDED + ["arguments passed by keyword"]:
         ctx.need(cls, 100)
     ctx.need("monitor:max_rate_t3 evaluated", 50_000)
